@@ -59,16 +59,31 @@ Print Assumptions C17_shuffle_is_permutation.
    record 0, 1, .., n-1, 0, 1, ..: the j-th is record j mod n.  Holds for the rows written before an
    error as well (e is unconstrained). *)
 Theorem C17_placement_mod_n :
-  forall (R C : Type) (col : R -> nat -> option C) (sid : nat) (data : list R),
+  forall (R C : Type) (col : R -> nat -> option C) (sid : nat) (data : list R)
+         (iters : nat) (ts : tmpls R) (orc : list Z) (rows : list (row R C)) (e : option err),
     data <> [] ->
-    forall (iters : nat) (ts : tmpls R) (orc : list Z) (rows : list (row R C)) (e : option err),
-      (occ_list R sid ts <= 1)%nat ->
-      plain_list R sid data false ts ->
-      run_recipe R C col iters ts orc = (rows, e) ->
-      forall j, (j < length (trace R C sid rows))%nat ->
-        nth_error (trace R C sid rows) j = nth_error data (j mod length data).
+    (occ_list R sid ts <= 1)%nat ->
+    plain_list R sid (mkDs data Linear true) false ts ->
+    run_recipe R C col iters ts orc = (rows, e) ->
+    forall j, (j < length (trace R C sid rows))%nat ->
+      nth_error (trace R C sid rows) j = nth_error data (j mod length data).
 Proof. exact placement_mod_n. Qed.
 Print Assumptions C17_placement_mod_n.
+
+(* Placement, repeat: False.  Under the same two conditions, a non-repeating Dataset.iterate call
+   site hands out, over the whole run (all rows, all iterations), at most n records, and they are
+   the file's records in file order: no record is ever used twice, wherever the consuming
+   template is placed.  (A run in which more than n rows consume it cannot end without error.) *)
+Theorem C17_placement_no_reuse :
+  forall (R C : Type) (col : R -> nat -> option C) (sid : nat) (data : list R)
+         (iters : nat) (ts : tmpls R) (orc : list Z) (rows : list (row R C)) (e : option err),
+    (occ_list R sid ts <= 1)%nat ->
+    plain_list R sid (mkDs data Linear false) false ts ->
+    run_recipe R C col iters ts orc = (rows, e) ->
+    trace R C sid rows = firstn (length (trace R C sid rows)) data /\
+    (length (trace R C sid rows) <= length data)%nat.
+Proof. exact placement_norepeat. Qed.
+Print Assumptions C17_placement_no_reuse.
 
 (* for_each: a template whose loop is for_each over dataset d writes exactly one row per record of
    one pass over d — in file order for iterate (no randomness used), a permutation for shuffle —
@@ -97,6 +112,42 @@ Proof.
   intros k x H. rewrite (fe_rows_nth R C tid p recs 0 k x H). reflexivity.
 Qed.
 Print Assumptions C17_for_each_rows_shape.
+
+(* for_each in general: the template may have any Dataset fields, projected columns, nested objects
+   and friends (none writing under the same template id), and sit in any context (rc, s).  If it
+   completes, the rows it wrote (mine) carry exactly the records of one pass over the dataset
+   (i_rest of the freshly started iterator: file order / a permutation, see C17_for_each_exact),
+   in order, with child_index 0, 1, ..; if the run fails inside, the rows written so far carry a
+   prefix of that list. *)
+Theorem C17_for_each_general :
+  forall (R C : Type) (col : R -> nat -> option C) (tid : nat) (d : dsref R)
+         (sites : list (nat * dsref R)) (pass : list nat) (nested friends : tmpls R)
+         (rc : bool) (s : st R C),
+    tid_free_list R tid nested -> tid_free_list R tid friends ->
+    match gen_rows R C col (Tmpl tid (LForEach d) sites pass nested friends) rc s with
+    | ROk _ _ _ _ s' =>
+      exists it orc1 ex, new_iter R d (s_orc R C s) = Ok (it, orc1) /\
+        s_out R C s' = s_out R C s ++ ex /\
+        map (key R C) (mine R C tid ex) = keys R (i_rest R it) 0
+    | RErr _ _ _ _ o =>
+      (exists e0, new_iter R d (s_orc R C s) = Err e0 /\ o = s_out R C s) \/
+      (exists it orc1 ex, new_iter R d (s_orc R C s) = Ok (it, orc1) /\
+        o = s_out R C s ++ ex /\
+        prefix (map (key R C) (mine R C tid ex)) (keys R (i_rest R it) 0))
+    end.
+Proof. exact for_each_general. Qed.
+Print Assumptions C17_for_each_general.
+
+(* keys recs 0 = [(Some r0, 0); (Some r1, 1); ...] *)
+Theorem C17_for_each_keys_shape :
+  forall (R : Type) (recs : list R),
+    length (keys R recs 0) = length recs /\
+    forall k x, nth_error recs k = Some x -> nth_error (keys R recs 0) k = Some (Some x, Z.of_nat k).
+Proof.
+  intros. split; [apply keys_length|].
+  intros k x H. rewrite (keys_nth R recs 0 k x H). reflexivity.
+Qed.
+Print Assumptions C17_for_each_keys_shape.
 
 (* the iterator protocol behind it: zip(iterator, count()) over an iterator whose repeat flag was
    turned off delivers the rest of the pass in order and stops *)
@@ -185,7 +236,7 @@ Definition placement_witness : tmpls Z :=
         (TCons (Tmpl 4%nat (LForEach (mkDs [8; 9] Linear true)) [] [] TNil TNil) TNil).
 
 Example C17_ex_placement_hyps :
-  (occ_list Z 1%nat placement_witness <= 1)%nat /\ plain_list Z 1%nat [10; 20; 30] false placement_witness.
+  (occ_list Z 1%nat placement_witness <= 1)%nat /\ plain_list Z 1%nat (mkDs [10; 20; 30] Linear true) false placement_witness.
 Proof. vm_compute. intuition (try discriminate; auto). Qed.
 
 Example C17_ex_placement_trace :
